@@ -47,15 +47,22 @@ func (r ItemResult) key() string {
 	return string(b)
 }
 
-// chunkReader delivers at most n bytes per Read.
+// chunkReader delivers at most n bytes per Read; with eofWithData the last
+// bytes and io.EOF arrive in the same call (as io.Reader allows).
 type chunkReader struct {
-	data []byte
-	n    int
+	data        []byte
+	n           int
+	eofWithData bool
 }
 
 func (c *chunkReader) Read(p []byte) (int, error) {
 	if len(c.data) == 0 {
 		return 0, io.EOF
+	}
+	if c.eofWithData && len(c.data) <= c.n && len(c.data) <= len(p) {
+		k := copy(p, c.data)
+		c.data = nil
+		return k, io.EOF
 	}
 	k := c.n
 	if k > len(p) {
@@ -85,6 +92,8 @@ func runItemChunked(it *Item, chunk int) (r ItemResult) {
 		for i, in := range it.Inputs {
 			if chunk > 0 {
 				files[i] = lang.InputFile{Name: in.Name, Reader: &chunkReader{data: append([]byte(nil), in.Data...), n: chunk}}
+			} else if chunk < 0 {
+				files[i] = lang.InputFile{Name: in.Name, Reader: &chunkReader{data: append([]byte(nil), in.Data...), n: -chunk, eofWithData: true}}
 			} else {
 				files[i] = lang.InputFile{Name: in.Name, Reader: bytes.NewReader(in.Data)}
 			}
@@ -113,7 +122,7 @@ func runItemChunked(it *Item, chunk int) (r ItemResult) {
 type runItemsReq struct {
 	Items  []Item `json:"items"`
 	Order  []int  `json:"order"`
-	Chunks []int  `json:"chunks,omitempty"` // per execution: bytes per read (0: all at once)
+	Chunks []int  `json:"chunks,omitempty"` // per execution: bytes per read (0: all at once; negative: EOF arrives with the last bytes)
 }
 
 // runitemsMain: subprocess entry. Executes the requested sequence in this
@@ -202,7 +211,8 @@ func runHistCase(c *HistCase, keep bool) Outcome {
 		// the same bytes, delivered in different ways
 		chunks := make([]int, c.K)
 		for i := range chunks {
-			chunks[i] = []int{0, 1, 0, 2, 3, 0, 7, 64}[i%8]
+			// negative: that many bytes per read, io.EOF together with the last ones
+			chunks[i] = []int{0, 1, -(1 << 20), 2, 3, -2, 7, 64}[i%8]
 		}
 		same, err := spawnRunItems(&runItemsReq{Items: c.Items, Order: order, Chunks: chunks}, nil)
 		if err != nil {
@@ -365,6 +375,28 @@ func objLiteral(t *Tape, minKeys, maxKeys int) string {
 	// a jqawk object literal with the same key pool
 	s := genObjText(t, minKeys, maxKeys, true)
 	return s // JSON object syntax is valid jqawk object-literal syntax
+}
+
+// genHeavyItem: a run that consumes a lot of one resource and ends normally
+// (or in the corresponding limit error).
+func genHeavyItem(t *Tape) Item {
+	it := Item{Inputs: []ProgInput{{Name: "in.json", Data: QBytes("[1, 2, 3]")}}}
+	switch t.Draw(6) {
+	case 0:
+		// about a million array slots filled by assignments past the end
+		it.Prog = fmt.Sprintf("BEGIN { for (i = 0; i < 8; i++) { a = []\n a[%d + i] = i }\n print a.length() }", 100000+t.Draw(60000))
+	case 1:
+		it.Prog = fmt.Sprintf("BEGIN { a = []\n a[%d] = 1\n print a.length(), a[-1] }", 900000+t.Draw(148000))
+	case 2:
+		it.Prog = fmt.Sprintf("BEGIN { for (i = 0; i < %d; i++) { s += i }\n print s }", 100000+t.Draw(200000))
+	case 3:
+		it.Prog = fmt.Sprintf("function r(n) { if (n == 0) { return 0 }\n return 1 + r(n - 1) }\nBEGIN { for (i = 0; i < 6; i++) { t += r(%d) }\n print t }", 500+t.Draw(1500))
+	case 4:
+		it.Prog = fmt.Sprintf("BEGIN { o = {}\n for (i = 0; i < %d; i++) { o[\"k\" + i] = [i] }\n print o.length() }", 20000+t.Draw(60000))
+	default:
+		it.Prog = fmt.Sprintf("BEGIN { s = \"x\"\n for (i = 0; i < %d; i++) { s = s + s }\n print s.length() }\n{ a = []\n a[300000] = $\n print a.length() }", 18+t.Draw(5))
+	}
+	return it
 }
 
 func genItem(t *Tape) Item {
@@ -545,8 +577,19 @@ func registerC10() {
 				c.Items = append(c.Items, genItem(t))
 			}
 			m := 10 + t.Draw(51)
+			heavy := -1
+			if t.Chance(1, 10) {
+				// a resource-heavy item that dominates the history: whatever a run
+				// consumes (cells, frames, steps, output) is given back when it ends
+				heavy = t.Draw(n)
+				c.Items[heavy] = genHeavyItem(t)
+			}
 			for k := 0; k < m; k++ {
-				c.Order = append(c.Order, t.Draw(n))
+				if heavy >= 0 && t.Chance(1, 2) {
+					c.Order = append(c.Order, heavy)
+				} else {
+					c.Order = append(c.Order, t.Draw(n))
+				}
 			}
 			return c
 		},
